@@ -13,6 +13,11 @@ import vlib
 
 def run(c):
     vlib.table_check(c, 'Names', 'Names.cfg', 'c15', workers=1, tlc_timeout=900)
+    # a consumer of the names: the real cleaner on evolving listings that also hold other databases' snapshots,
+    # unparsable names and files of our own database that are of another registered kind - none of them may be
+    # taken for a snapshot (deleted, or counted as an instance's newest snapshot)
+    from props import c12
+    c12.run_cfg(c, 'Cleaner.cfg', 1, 2, 600, 16, exhaustive=False, only_class='deleted-foreign')
     c.assumptions += ['breadth over real strings and timestamps comes from seeded sampling inside the abstract classes']
     c.extra['rule'] = 'structured abstract names (<=5 parts from 9 part shapes x 4 extension shapes) concretised; seeded instance names and timestamps'
 
